@@ -203,7 +203,7 @@ CARRYING = {}     # qualname -> (receiver param, reason)
 def returned_object_carries(p, fi, src_terms, ctx, carrying):
     """does the value returned on path p carry the metadata of one of src_terms?"""
     v = p.value
-    alts = T.strip_phi(v)
+    alts = T.value_alts(v)
     ok_all = True
     n_array = 0
     for alt in alts:
@@ -321,7 +321,7 @@ def rule_carried(ctx, only=None):
         for p in ret_paths(ev):
             v = p.value
             # scalar / ndarray results are not DimArrays: skip values that are not object-typed
-            alts = [strip(a) for a in T.strip_phi(v) if a[0] != 'carried']
+            alts = [strip(a) for a in T.value_alts(v) if a[0] != 'carried']
             arr_alts = [a for a in alts if a == src or (a[0] == 'call' and (T.call_name(a) in carrying or T.call_name(a) == '_constructor'))
                         or (a[0] == 'call' and a[1][0] == 'call')]
             if not arr_alts and not any(a[0] == 'call' for a in alts):
@@ -416,7 +416,7 @@ def rule_not_carried(ctx):
         for p in ev.paths:
             if p.kind != 'return':
                 continue
-            for alt in T.strip_phi(p.value):
+            for alt in T.value_alts(p.value):
                 base = alt
                 while base[0] in ('mut', 'setitem'):
                     base = base[1]
